@@ -2,3 +2,15 @@ claim("C16", "Hypothesis property-based testing: round-trip and model-based orac
       "Generated search (thousands of cases per run, 16-way sharded in thorough) comparing Content/ContentType behaviour with independent models: whole-string decode, slice model of seek/read, structural equality, repr->parse round trip, snapshot-before-mutation. Finds counterexamples; never proves absence.",
       "Trusts CPython codecs/io as the reference; content-type domain restricted as stated in DESIGN.md C16 (no quote characters, control chars, RFC2047 words, ',' in charset).",
       "DESIGN.md 4/C16")
+claim("C10", "Hypothesis property-based testing + bounded-exhaustive enumeration against a reference segmentation model of the event stream",
+      "Generated and (for length <= 2 quick / <= 3 thorough over a 36-symbol alphabet) exhaustively enumerated status-event sequences are fed to StreamToDict, StreamSummary and StreamToExtendedDecorator; reports are compared with a 40-line reference model written from the statement (per-key segmentation, last status, latest tags, first/last timestamps, concatenated attachments, incomplete at stopTestRun).",
+      "Small alphabets (4 ids, route codes of <= 3 segments, 3 file names); text attachments valid for their charset; uxsuccess verdict of StreamSummary not asserted.",
+      "DESIGN.md 4/C10")
+claim("C11", "Hypothesis property-based testing: generated decorator trees x event sequences against a pure functional path model, with before/after snapshots of argument objects",
+      "Each sink's log must equal the input events pushed through a functional model of its path (tags added/discarded, missing timestamp filled with a current UTC time, route prefixed), exactly once and in order; caller's arguments and delivered objects must not change value afterwards; StreamFailFast callback count equals the number of fail/uxsuccess events.",
+      "Positional passing limited to test_id/test_status when a tagger or timestamper is in the tree; sharing the caller's own object between targets is not treated as aliasing.",
+      "DESIGN.md 4/C11")
+claim("C18", "Hypothesis model-based history generation + bounded-exhaustive rule x event enumeration against a reference router; queue/router round trip",
+      "Histories of add_rule/startTestRun/stopTestRun/status are replayed on StreamResultRouter and on a reference router (prefix rule > id rule > fallback > raise); every sink log must match exactly (destination, fields, consumed segment, start/stop counts incl. mid-run rules). StreamToQueue(code) followed by a consuming router must be the identity for 1..3 nested codes. Exhaustive over <=2 rules x 10 route codes x 3 ids.",
+      "Each prefix/test id registered once; a sink registered for start/stop at most once; run brackets alternate.",
+      "DESIGN.md 4/C18")
